@@ -38,8 +38,8 @@ Definition dec_sint (w : nat) (b : bytes) : option Z :=
     Some (if n <? pow256 w / 2 then Z.of_N n else (Z.of_N n - Z.of_N (pow256 w))%Z)
   else None.
 
-(* ---- YEAR: byte(intValue - 1900) ; MySQL: 0 -> 0000, b -> 1900 + b ---- *)
-Definition enc_year (y : Z) : bytes := [Z.to_N ((y - 1900) mod 256)].
+(* ---- YEAR: 0000 -> 0, else byte(intValue - 1900) ; MySQL: 0 -> 0000, b -> 1900 + b ---- *)
+Definition enc_year (y : Z) : bytes := if (y =? 0)%Z then [0] else [Z.to_N ((y - 1900) mod 256)].
 Definition dec_year (b : bytes) : option Z :=
   match b with [v] => Some (if v =? 0 then 0%Z else (1900 + Z.of_N v)%Z) | _ => None end.
 
@@ -235,7 +235,8 @@ Definition json_str_len (n : N) : option bytes :=
 Definition json_word (large : bool) (v : N) : bytes := if large then le_bytes 4 (v mod u32) else le_bytes 2 (v mod 65536).
 Definition json_w (large : bool) : N := if large then 4 else 2.
 
-(* value entries + values, starting at offset off; None = "offset too large for small ... encoding" *)
+(* value entries + values, starting at offset off; None = "offset too large for small ... encoding"
+   (an entry longer than 65535 bytes, or an offset that would pass 65535) *)
 Fixpoint json_values (large : bool) (es : list (N * bytes)) (off : N) : option (bytes * bytes * N) :=
   match es with
   | [] => Some ([], [], off)
@@ -245,7 +246,7 @@ Fixpoint json_values (large : bool) (es : list (N * bytes)) (off : N) : option (
       | Some (ents, vals, off') => Some (4 :: json_word large (hd 0 e) ++ ents, vals, off')
       | None => None
       end
-    else if negb large && (u32sub 65535 (N.of_nat (length e)) <? off) then None
+    else if negb large && ((65535 <? N.of_nat (length e) mod u32) || (u32sub 65535 (N.of_nat (length e)) <? off)) then None
     else match json_values large r ((off + N.of_nat (length e)) mod u32) with
          | Some (ents, vals, off') => Some (t :: json_word large off ++ ents, e ++ vals, off')
          | None => None
@@ -261,14 +262,14 @@ Definition json_array_layout (large : bool) (es : list (N * bytes)) : option byt
   | Some (ents, vals, off) => Some (json_word large n ++ json_word large off ++ ents ++ vals)
   end.
 
-(* key entries: offset word + byte(len), byte(len<<8) — the second length byte is always 0 *)
+(* key entries: offset word + byte(len), byte(len>>8) *)
 Fixpoint json_keys (large : bool) (ks : list bytes) (off : N) : option (bytes * bytes * N) :=
   match ks with
   | [] => Some ([], [], off)
   | k :: r =>
-    if negb large && (u32sub 65535 (N.of_nat (length k)) <? off) then None
+    if negb large && ((65535 <? N.of_nat (length k) mod u32) || (u32sub 65535 (N.of_nat (length k)) <? off)) then None
     else match json_keys large r ((off + N.of_nat (length k)) mod u32) with
-         | Some (ents, keys, off') => Some (json_word large off ++ [N.of_nat (length k) mod 256; 0] ++ ents, k ++ keys, off')
+         | Some (ents, keys, off') => Some (json_word large off ++ [N.of_nat (length k) mod 256; (N.of_nat (length k) / 256) mod 256] ++ ents, k ++ keys, off')
          | None => None
          end
   end.
